@@ -6,6 +6,7 @@ import (
 	"reflect"
 	"runtime/debug"
 	"strings"
+	"sync"
 	"sync/atomic"
 	"time"
 
@@ -72,6 +73,7 @@ type Context struct {
 	behaviorStack *BehaviorStack                     // 行为栈
 	mailbox       vivid.Mailbox                      // 邮箱
 	children      map[vivid.ActorPath]vivid.ActorRef // 懒加载的子 Actor 引用
+	childrenLock  sync.Mutex                         // 保护 children：根 Actor 的 children 会被 System.ActorOf 的调用方与根 Actor 自身的邮箱协程同时访问
 	envelop       vivid.Envelop                      // 当前 ActorContext 的消息
 	state         int32                              // 状态
 	zombie        bool                               // 是否为僵尸状态
@@ -175,10 +177,12 @@ func (c *Context) ActorOf(actor vivid.Actor, options ...vivid.ActorOption) (vivi
 		return nil, vivid.ErrorActorAlreadyExists.WithMessage(childCtx.Ref().GetPath())
 	}
 
+	c.childrenLock.Lock()
 	if c.children == nil {
 		c.children = make(map[vivid.ActorPath]vivid.ActorRef)
 	}
 	c.children[childCtx.Ref().GetPath()] = childCtx.Ref()
+	c.childrenLock.Unlock()
 
 	c.tell(true, childCtx.Ref(), new(vivid.OnLaunch))
 	c.Logger().Debug("actor spawned", log.String("path", childCtx.Ref().GetPath()))
@@ -585,7 +589,7 @@ func (c *Context) doKill(message *vivid.OnKill, behavior vivid.Behavior) {
 	c.system.removeFuturesByAgentPath(c.ref.GetPath(), vivid.ErrorActorDeaded)
 
 	// 等待所有子 Actor 结束，假设是重启，子 Actor 不应该跟随重启，应该由父节点决定是否重启
-	for _, child := range c.children {
+	for _, child := range c.Children() {
 		c.Logger().Debug("notify child kill", log.String("path", child.GetPath()))
 		c.Kill(child, message.Poison, message.Reason)
 		if message.Poison {
@@ -689,6 +693,8 @@ func (c *Context) Kill(ref vivid.ActorRef, poison bool, reason ...string) {
 }
 
 func (c *Context) Children() vivid.ActorRefs {
+	c.childrenLock.Lock()
+	defer c.childrenLock.Unlock()
 	children := make(vivid.ActorRefs, 0, len(c.children))
 	for _, child := range c.children {
 		children = append(children, child)
